@@ -7,7 +7,7 @@ const char* const H_NAME = "c04_join";
 const char* const H_PROPERTY = "C04";
 
 #define MAXP 5
-enum { OW_JOIN = 0, OW_TRY_THEN_JOIN, OW_TRY_UNTIL, OW_DETACH_EARLY, OW_DETACH_LATE, OW_SECOND_JOINER, OW_DETACHED_THEN_JOIN, OW_RACING_TRYJOIN, OW_NKINDS };
+enum { OW_JOIN = 0, OW_TRY_THEN_JOIN, OW_TRY_UNTIL, OW_DETACH_EARLY, OW_DETACH_LATE, OW_SECOND_JOINER, OW_DETACHED_THEN_JOIN, OW_RACING_TRYJOIN, OW_JOIN_THEN_DETACH, OW_NKINDS };
 static struct {
   int kind, tries, owner_pre, target_pre, target_sleep;
   fiber_t* target;
@@ -56,6 +56,17 @@ static void* second_joiner(void* p) {
   P[i].gate = 1;
   return NULL;
 }
+/* a third fiber detaches the target while the owner is blocked in fiber_join on it and the target is still
+ * running (gate closed). The blocked join must not report success: the fiber has not finished. */
+static void* detacher_fn(void* p) {
+  const int i = (int)(intptr_t)p;
+  while (!g_owner_blocked_in_join(i)) RS0(fiber_yield);
+  if (fiber_detach(P[i].target) != FIBER_SUCCESS) g_fail("C04-detach-failed", i, "fiber_detach of a fiber another fiber is joining failed");
+  g_detached(i);
+  for (int k = 0; k < P[i].tries; k++) RS0(fiber_yield);
+  P[i].gate = 1;
+  return NULL;
+}
 /* several fibers call fiber_tryjoin on the same finished fiber at the same time: at most one may succeed.
  * The losers' calls would be use-after-free by the caller once the winner has let the target be reclaimed,
  * so the target's control block is put on hold in the allocator (its free is recorded, the memory stays
@@ -83,6 +94,11 @@ static void* owner_fn(void* p) {
       g_before_api(i, "fiber_join");
       if (fiber_join(t, &r) != FIBER_SUCCESS) g_fail("C04-join-failed", i, "fiber_join by the only legitimate joiner failed");
       g_join_ok(i, r, "fiber_join");
+      break;
+    case OW_JOIN_THEN_DETACH:
+      /* the detacher wakes this joiner; whatever the call returns, a success is only legal after the target's
+       * function returned and with its value (g_join_ok checks both) */
+      if (fiber_join(t, &r) == FIBER_SUCCESS) g_join_ok(i, r, "fiber_join (target detached by a third fiber meanwhile)");
       break;
     case OW_TRY_THEN_JOIN: {
       int done = 0;
@@ -146,13 +162,13 @@ void h_run(void) {
     P[i].target_sleep = wl_pct(20) ? wl_int(1, 30) : 0;
     /* a yield-polling owner keeps its kernel thread busy, and a busy thread never polls the timer: a
      * sleeping target would never wake on one kernel thread (outside the properties) - keep those apart */
-    if (P[i].kind == OW_TRY_UNTIL || P[i].kind == OW_SECOND_JOINER || P[i].kind == OW_DETACHED_THEN_JOIN || P[i].kind == OW_RACING_TRYJOIN) P[i].target_sleep = 0;
+    if (P[i].kind == OW_TRY_UNTIL || P[i].kind == OW_SECOND_JOINER || P[i].kind == OW_DETACHED_THEN_JOIN || P[i].kind == OW_RACING_TRYJOIN || P[i].kind == OW_JOIN_THEN_DETACH) P[i].target_sleep = 0;
     P[i].expect = (void*)(intptr_t)(0x1000 + i);
-    P[i].gate = !(P[i].kind == OW_SECOND_JOINER || P[i].kind == OW_DETACHED_THEN_JOIN);
+    P[i].gate = !(P[i].kind == OW_SECOND_JOINER || P[i].kind == OW_DETACHED_THEN_JOIN || P[i].kind == OW_JOIN_THEN_DETACH);
     if (P[i].kind == OW_TRY_UNTIL || P[i].kind == OW_TRY_THEN_JOIN) nt = 1;
     dk += snprintf(d + dk, sizeof d - dk, "[kind%d tries%d opre%d tpre%d tsleep%d] ", P[i].kind, P[i].tries, P[i].owner_pre, P[i].target_pre, P[i].target_sleep);
   }
-  sim_describe("threads=%d pairs=%d %s(kinds: 0 join 1 tryjoin*+join 2 tryjoin-until 3/4 detach 5 second joiner 6 detach then join 7 racing tryjoins)", c.threads, npairs, d);
+  sim_describe("threads=%d pairs=%d %s(kinds: 0 join 1 tryjoin*+join 2 tryjoin-until 3/4 detach 5 second joiner 6 detach then join 7 racing tryjoins 8 join, then detached by a third fiber)", c.threads, npairs, d);
   if (c.threads >= 2 || nt) sim_nontrivial();
   sim_fiber_mode();
   fiber_manager_init(c.threads);
@@ -170,6 +186,7 @@ void h_run(void) {
       own[i] = fiber_create(STK, owner_fn, (void*)(intptr_t)i);
     }
     if (P[i].kind == OW_SECOND_JOINER) sec[i] = fiber_create(STK, second_joiner, (void*)(intptr_t)i);
+    if (P[i].kind == OW_JOIN_THEN_DETACH) sec[i] = fiber_create(STK, detacher_fn, (void*)(intptr_t)i);
     if (P[i].kind == OW_RACING_TRYJOIN) {
       sim_mem_hold(P[i].target);
       sec[i] = fiber_create(STK, racer_fn, (void*)(intptr_t)i);
